@@ -40,10 +40,17 @@ func bigEncCase(ctx *Ctx, v *big.Int) {
 	} else {
 		full := append(bytes.Repeat([]byte{r.padVal}, r.padLen), r.b...)
 		impl = "ok " + hexUp(full)
-		// oracle: minimal 8-aligned two's complement, computed independently
-		want := (&tree.Item{Kind: tree.KBig, Tag: 1, Big: v}).Encode()[8:]
-		if !bytes.Equal(want, full) {
-			ctx.Res.Violate(report.Violation{Property: "C03", Oracle: "twos-complement", Key: "big:encoding-differs", Detail: fmt.Sprintf("bigIntToBytes(%s) = %s, two's complement is %s", v, hexUp(full), hexUp(want)), Line: line})
+		// oracle, from the property text: a positive multiple of 8 bytes whose two's complement value (computed
+		// here from the bytes, independently) is v. Minimality is NOT required by the property nor by KMIP 1.4
+		// §9.1.1.4; a longer sign extension is only counted.
+		val := new(big.Int).SetBytes(full)
+		if len(full) > 0 && full[0]&0x80 != 0 {
+			val.Sub(val, new(big.Int).Lsh(big.NewInt(1), uint(8*len(full))))
+		}
+		if len(full) == 0 || len(full)%8 != 0 || val.Cmp(v) != 0 {
+			ctx.Res.Violate(report.Violation{Property: "C03", Oracle: "twos-complement", Key: "big:encoding-differs", Detail: fmt.Sprintf("bigIntToBytes(%s) = %s: %d bytes, two's complement value %s", v, hexUp(full), len(full), val), Line: line})
+		} else if want := (&tree.Item{Kind: tree.KBig, Tag: 1, Big: v}).Encode()[8:]; !bytes.Equal(want, full) {
+			ctx.Res.Count("big.enc.not-minimal")
 		}
 	}
 	ctx.Add(line, impl, v.Sign() != 0, "C01,C03,C14")
